@@ -13,6 +13,7 @@
 //! canonical reply that the model must reproduce.
 mod common;
 mod c20;
+mod ueq;
 mod ord;
 mod obj;
 mod print;
@@ -34,6 +35,7 @@ pub fn exec_line(line: &str, out: &mut Out) {
         "print" => print::exec(rest, out),
         "obj" => obj::exec(rest, out),
         "ord" => ord::exec(rest, out),
+        "ueq" => ueq::exec(rest, out),
         _ => ("bad-op".to_string(), false),
     }));
     match r {
@@ -84,6 +86,7 @@ fn real_main() {
             "C03" => c03::gen(&mut out, thorough),
             "C06" => obj::gen(&mut out, thorough, "C06"),
             "C14" => ord::gen(&mut out, thorough),
+            "C15" => ueq::gen(&mut out, thorough),
             "C04" => print::gen(&mut out, thorough, "C04"),
             "C08" => print::gen(&mut out, thorough, "C08"),
             "C13" => print::gen(&mut out, thorough, "C13"),
